@@ -29,6 +29,19 @@ func (a *Analyzer) onElection(n *nodeState, r *ev.Rec) {
 	if n.xferPermit {
 		a.stat("elections-with-transfer-permission")
 	}
+	// C17: an election that no timeout can have started. The node handled a
+	// request of its leader (which re-arms the election timer, at least one
+	// heartbeat timeout from then) and campaigns less than half a heartbeat
+	// timeout later without having been told to. Both times are taken from
+	// the same monotonic clock of the one worker process, the first one
+	// before the timer is re-armed, the second one after it fired: load can
+	// only stretch the distance, never shrink it below the timeout.
+	if !n.xferPermit && n.resetWall > 0 && a.hbMs > 0 && r.Wall > 0 {
+		a.stat("elections-timed-against-the-last-leader-contact")
+		if d := r.Wall - n.resetWall; d >= 0 && d < a.hbMs/2 {
+			a.find("C17", "election-without-a-timeout", "", r.Q, "%s starts an election for term %d only %d ms after it handled a request of its leader (heartbeat timeout %d ms, the election timeout is at least that): an expired tick of the timer survived its re-arming, the node disturbs a leader it is hearing from", n.key, t, d, a.hbMs)
+		}
+	}
 	// C11: only voters of their own latest configuration campaign
 	if r.Cfg == nil || !r.Cfg.IsVoter(n.key.nid) {
 		a.find("C11", "non-voter-starts-election", "", r.Q, "%s starts an election for term %d but is not a voter in its own latest configuration %s", n.key, t, cfgString(r.Cfg))
@@ -243,6 +256,9 @@ func (a *Analyzer) onRPC(n *nodeState, r *ev.Rec) {
 			}
 		}
 	case "append", "installSnap", "timeoutNow":
+		if (r.RPC == "append" || r.RPC == "installSnap") && r.Res == "success" {
+			n.resetWall = r.Wall
+		}
 		if r.RPC == "timeoutNow" {
 			a.stat("timeout-now-requests-by-term:" + map[bool]string{true: "older", false: "current-or-newer"}[r.ReqTerm < termBefore])
 			if r.Res == "success" && r.ReqTerm < termBefore && hadSt {
